@@ -223,14 +223,17 @@ fn run_guarded(part: &dyn Part, prop: &str, plan: &Value, trace: bool) -> Result
     }
 }
 
-fn unit_body(part: &dyn Part, prop: &str, tier: Tier, base_seed: u64, part_ix: usize, start: u64, n: u64, want_hashes: bool) -> UnitResult {
+fn unit_body(part: &'static dyn Part, prop: &'static str, tier: Tier, base_seed: u64, part_ix: usize, start: u64, n: u64, want_hashes: bool) -> UnitResult {
     let mut u = UnitResult::default();
     let mut sigs = BTreeSet::new();
     let mut ilogs = BTreeSet::new();
     for idx in start..start + n {
         let seed = run_seed(base_seed, part_ix, idx);
         let plan = part.gen(seed, tier);
-        match run_guarded(part, prop, &plan, false) {
+        // every run gets a brand-new thread: fresh thread-locals (rand's ThreadRng, std's
+        // RandomState keys, futures-util's select! RNG, tokio coop budget …)
+        let res = fresh_thread(part, prop, plan.clone(), false);
+        match res {
             Err(e) => {
                 u.harness_error = Some(format!("{e} (seed {seed})"));
                 break;
@@ -268,6 +271,18 @@ fn unit_body(part: &dyn Part, prop: &str, tier: Tier, base_seed: u64, part_ix: u
     u
 }
 
+fn fresh_thread(part: &'static dyn Part, prop: &'static str, plan: Value, trace: bool) -> Result<Report, String> {
+    let pr = PartRef(part as *const dyn Part);
+    let h = std::thread::Builder::new()
+        .stack_size(64 << 20)
+        .spawn(move || run_guarded(pr.get(), prop, &plan, trace))
+        .map_err(|e| format!("thread spawn: {e}"))?;
+    match h.join() {
+        Ok(r) => r,
+        Err(_) => Err("run thread died outside catch_unwind".to_string()),
+    }
+}
+
 pub fn run_seed(base_seed: u64, part_ix: usize, idx: u64) -> u64 {
     mix(mix(base_seed ^ 0xA5A5_0000 ^ (part_ix as u64) << 48) ^ idx)
 }
@@ -288,7 +303,7 @@ fn in_child(f: impl FnOnce() -> Vec<u8> + Send + 'static, wall_limit_s: u32) -> 
         if pid == 0 {
             libc::close(fds[0]);
             libc::alarm(wall_limit_s);
-            let h = std::thread::Builder::new().stack_size(256 << 20).spawn(f).expect("spawn");
+            let h = std::thread::Builder::new().stack_size(8 << 20).spawn(f).expect("spawn");
             let out = match h.join() {
                 Ok(v) => v,
                 Err(_) => libc::_exit(101),
@@ -319,7 +334,7 @@ fn in_child(f: impl FnOnce() -> Vec<u8> + Send + 'static, wall_limit_s: u32) -> 
 struct PartRef(*const dyn Part);
 unsafe impl Send for PartRef {}
 impl PartRef {
-    fn get(&self) -> &dyn Part {
+    fn get(&self) -> &'static dyn Part {
         unsafe { &*self.0 }
     }
 }
@@ -387,7 +402,7 @@ pub fn run_plan_isolated(part: &'static dyn Part, prop: &'static str, plan: &Val
     let end = in_child(
         move || {
             install_panic_hook();
-            let r = run_guarded(pr.get(), prop, &plan2, trace);
+            let r = fresh_thread(pr.get(), prop, plan2, trace);
             serde_json::to_vec(&r).unwrap()
         },
         180,
